@@ -1,6 +1,8 @@
 //! Correspondence harness: runs the real crate (built from /repo's working tree) on generated
 //! inputs and dumps what it observed as JSON lines. It judges nothing.
+mod arith;
 mod comp;
+mod formula;
 mod peak;
 mod poisson;
 mod table;
@@ -16,6 +18,8 @@ fn main() {
         "table" => table::run(),
         "peak" => peak::run(&rest),
         "comp" => comp::run(&rest),
+        "arith" => arith::run(&rest),
+        "formula" => formula::run(&rest),
         "poisson" => poisson::run(&rest),
         _ => {
             eprintln!("usage: ce_harness <table|...> [args]");
